@@ -907,7 +907,7 @@ func TestQuick(t *testing.T) {
 	runCancel(t, &CancelCase{Opts: "preload=true", TimeoutMS: 20, Rows: 100000})
 	fix.Check(t, "late-file", 24, func(rt *rapid.T) { run(rt, drawLateFile(rt)) })
 	fix.Check(t, "reincarnation", 40, func(rt *rapid.T) { run(rt, drawReincarnation(rt)) })
-	fix.Check(t, "churn", 12, func(rt *rapid.T) { runChurn(rt, drawChurn(rt)) })
+	fix.Check(t, "churn", 30, func(rt *rapid.T) { runChurn(rt, drawChurn(rt)) })
 }
 
 func TestThorough(t *testing.T) {
@@ -920,7 +920,7 @@ func TestThorough(t *testing.T) {
 	}
 	fix.Check(t, "late-file", 200, func(rt *rapid.T) { run(rt, drawLateFile(rt)) })
 	fix.Check(t, "reincarnation", 300, func(rt *rapid.T) { run(rt, drawReincarnation(rt)) })
-	fix.Check(t, "churn", 80, func(rt *rapid.T) { runChurn(rt, drawChurn(rt)) })
+	fix.Check(t, "churn", 120, func(rt *rapid.T) { runChurn(rt, drawChurn(rt)) })
 }
 
 func TestReplay(t *testing.T) {
